@@ -14,7 +14,16 @@ use lance_encoding::compression::{
     CompressionStrategy, DecompressionStrategy, DefaultCompressionStrategy, DefaultDecompressionStrategy,
     MiniBlockDecompressor,
 };
-use lance_encoding::data::{BlockInfo, DataBlock, FixedWidthDataBlock};
+use lance_encoding::compression::{BlockCompressor, BlockDecompressor};
+use lance_encoding::data::{BlockInfo, DataBlock, FixedWidthDataBlock, StructDataBlock, VariableWidthBlock};
+use lance_encoding::encodings::logical::primitive::dict::dictionary_encode;
+use lance_encoding::encodings::physical::binary::{BinaryBlockDecompressor, BinaryMiniBlockEncoder, VariableEncoder};
+use lance_encoding::encodings::physical::bitpacking::{InlineBitpacking, OutOfLineBitpacking};
+use lance_encoding::encodings::physical::block::CompressionConfig;
+use lance_encoding::encodings::physical::constant::ConstantDecompressor;
+use lance_encoding::encodings::physical::fsst::FsstMiniBlockEncoder;
+use lance_encoding::encodings::physical::general::GeneralMiniBlockCompressor;
+use lance_encoding::encodings::physical::packed::PackedStructFixedWidthMiniBlockEncoder;
 use lance_encoding::encodings::logical::primitive::miniblock::{
     MiniBlockCompressed, MiniBlockCompressor, MAX_MINIBLOCK_BYTES, MAX_MINIBLOCK_VALUES,
 };
@@ -132,6 +141,129 @@ const KEY_IBP_U64: &str = "inline_bitpack_u64_full_width_chunk_bytes";
 
 fn no_chunk(_: usize) -> bool {
     false
+}
+
+
+// ---------- variable-width values ----------
+
+/// items `len:seed` or `len:seed*n`; byte j of a value is (seed + 7 j) mod 256
+fn parse_items(s: &str) -> Option<Vec<Vec<u8>>> {
+    if s == "-" {
+        return Some(vec![]);
+    }
+    let mut out = vec![];
+    for item in s.split(',') {
+        let (body, n) = match item.split_once('*') {
+            Some((b, n)) => (b, n.parse::<usize>().ok()?),
+            None => (item, 1),
+        };
+        let (len, seed) = body.split_once(':')?;
+        let len: usize = len.parse().ok()?;
+        let seed: usize = seed.parse().ok()?;
+        if len > 100_000 || n > 100_000 {
+            return None;
+        }
+        let v: Vec<u8> = (0..len).map(|j| ((seed + 7 * j) % 256) as u8).collect();
+        for _ in 0..n {
+            out.push(v.clone());
+        }
+    }
+    Some(out)
+}
+
+fn var_block(vals: &[Vec<u8>], bw: usize, stats: bool) -> DataBlock {
+    let mut data = vec![];
+    let mut offs: Vec<u64> = vec![0];
+    for v in vals {
+        data.extend_from_slice(v);
+        offs.push(data.len() as u64);
+    }
+    let mut b = DataBlock::VariableWidth(VariableWidthBlock {
+        data: LanceBuffer::from(data),
+        offsets: LanceBuffer::from(words_to_bytes(&offs, bw)),
+        bits_per_offset: (bw * 8) as u8,
+        num_values: vals.len() as u64,
+        block_info: BlockInfo::new(),
+    });
+    if stats {
+        b.compute_stat();
+    }
+    b
+}
+
+/// canonical bytes of a list of values: 4-byte length then the bytes
+fn canon_vals(vals: &[Vec<u8>]) -> Vec<u8> {
+    let mut out = vec![];
+    for v in vals {
+        out.extend_from_slice(&(v.len() as u32).to_le_bytes());
+        out.extend_from_slice(v);
+    }
+    out
+}
+
+fn read_words(b: &[u8], ts: usize) -> Vec<u64> {
+    b.chunks(ts)
+        .map(|c| {
+            let mut w = [0u8; 8];
+            w[..c.len()].copy_from_slice(c);
+            u64::from_le_bytes(w)
+        })
+        .collect()
+}
+
+fn var_values(v: &VariableWidthBlock) -> Result<Vec<Vec<u8>>, String> {
+    let bw = (v.bits_per_offset / 8) as usize;
+    let offs = read_words(&v.offsets, bw);
+    if offs.len() as u64 != v.num_values + 1 {
+        return Err(format!("{} offsets for {} values", offs.len(), v.num_values));
+    }
+    let mut out = vec![];
+    for w in offs.windows(2) {
+        let (a, b) = (w[0] as usize, w[1] as usize);
+        if a > b || b > v.data.len() {
+            return Err(format!("offsets {a}..{b} outside data of {} bytes", v.data.len()));
+        }
+        out.push(v.data[a..b].to_vec());
+    }
+    Ok(out)
+}
+
+fn var_block_bytes(b: &DataBlock) -> Result<Vec<u8>, String> {
+    match b {
+        DataBlock::VariableWidth(v) => Ok(canon_vals(&var_values(v)?)),
+        other => Err(format!("unexpected decoded block type {}", other.name())),
+    }
+}
+
+/// packed struct chunk -> row-major bytes again
+fn struct_block_bytes(b: &DataBlock) -> Result<Vec<u8>, String> {
+    match b {
+        DataBlock::Struct(s) => {
+            let mut kids = vec![];
+            for c in &s.children {
+                match c {
+                    DataBlock::FixedWidth(f) => kids.push(((f.bits_per_value / 8) as usize, f.data.to_vec(), f.num_values)),
+                    other => return Err(format!("unexpected child block type {}", other.name())),
+                }
+            }
+            let n = kids.first().map(|k| k.2).unwrap_or(0) as usize;
+            let mut out = vec![];
+            for i in 0..n {
+                for (w, d, _) in &kids {
+                    if (i + 1) * w > d.len() {
+                        return Err("child buffer too short".into());
+                    }
+                    out.extend_from_slice(&d[i * w..(i + 1) * w]);
+                }
+            }
+            Ok(out)
+        }
+        other => Err(format!("unexpected decoded block type {}", other.name())),
+    }
+}
+
+fn child_bytes(seed: usize, j: usize, w: usize, nv: usize) -> Vec<u8> {
+    (0..w * nv).map(|k| ((seed + 17 * j + 3 * k + k / 7) % 256) as u8).collect()
 }
 
 struct Ctx<'a> {
@@ -446,6 +578,321 @@ fn exec_line(ctx: &mut Ctx, line: &str) -> String {
                 Err(_) => "err".into(),
             }
         }
+
+        ["bin", bw, items] => {
+            let (Some(bw), Some(vals)) = (bw.parse::<usize>().ok(), parse_items(items)) else { return bad };
+            if ![4, 8].contains(&bw) {
+                return bad;
+            }
+            ctx.tag(&format!("bin{}", bw * 8));
+            let block = var_block(&vals, bw, false);
+            let expected = canon_vals(&vals);
+            let r = std::panic::catch_unwind(std::panic::AssertUnwindSafe(|| BinaryMiniBlockEncoder::default().compress(block)));
+            match r {
+                Ok(Ok((c, enc))) => {
+                    if c.chunks.len() > 1 {
+                        ctx.tag("bin:multi_chunk");
+                    }
+                    if !vals.is_empty() {
+                        check_miniblock(ctx, "binary", &c, &enc, &var_block_bytes, &expected, vals.len() as u64, &no_chunk);
+                    }
+                    show_mini(&c)
+                }
+                Ok(Err(_)) => "err".into(),
+                Err(_) => {
+                    ctx.fail("panic:binary", "BinaryMiniBlockEncoder::compress panicked".into());
+                    "panic".into()
+                }
+            }
+        }
+        ["var", bw, items] => {
+            let (Some(bw), Some(vals)) = (bw.parse::<usize>().ok(), parse_items(items)) else { return bad };
+            if ![4, 8].contains(&bw) {
+                return bad;
+            }
+            ctx.tag(&format!("var{}", bw * 8));
+            let block = var_block(&vals, bw, false);
+            match BlockCompressor::compress(&VariableEncoder::default(), block) {
+                Ok(buf) => {
+                    let bytes = buf.to_vec();
+                    let r = std::panic::catch_unwind(std::panic::AssertUnwindSafe(|| {
+                        BinaryBlockDecompressor::default().decompress(LanceBuffer::from(bytes.clone()), vals.len() as u64)
+                    }));
+                    match r {
+                        Ok(Ok(b)) => match var_block_bytes(&b) {
+                            Ok(bs) if bs == canon_vals(&vals) => {}
+                            Ok(_) => ctx.fail("roundtrip:variable_block", "decoded values differ".into()),
+                            Err(e) => ctx.fail("roundtrip:variable_block", e),
+                        },
+                        Ok(Err(e)) => ctx.fail("roundtrip:variable_block", format!("decompress error {e}")),
+                        Err(_) => ctx.fail("roundtrip:variable_block", "decompress panicked".into()),
+                    }
+                    show_buf(&bytes)
+                }
+                Err(_) => "err".into(),
+            }
+        }
+        ["pk", widths, nv, seed] => {
+            let (Some(nv), Some(seed)) = (nv.parse::<usize>().ok(), seed.parse::<usize>().ok()) else { return bad };
+            let Some(ws) = widths.split('/').map(|w| w.parse::<usize>().ok()).collect::<Option<Vec<usize>>>() else { return bad };
+            if ws.is_empty() || ws.iter().any(|w| *w == 0 || *w > 64) || ws.iter().sum::<usize>() > 4092 || nv > 20000 {
+                return bad;
+            }
+            ctx.tag("packed");
+            let kids: Vec<Vec<u8>> = ws.iter().enumerate().map(|(j, w)| child_bytes(seed, j, *w, nv)).collect();
+            let mut expected = vec![];
+            for i in 0..nv {
+                for (j, w) in ws.iter().enumerate() {
+                    expected.extend_from_slice(&kids[j][i * w..(i + 1) * w]);
+                }
+            }
+            let children: Vec<DataBlock> =
+                ws.iter().zip(kids.iter()).map(|(w, k)| fixed_block(k.clone(), (*w * 8) as u64, nv as u64, true)).collect();
+            let mut block = DataBlock::Struct(StructDataBlock { children, block_info: BlockInfo::new(), validity: None });
+            block.compute_stat();
+            let r = std::panic::catch_unwind(std::panic::AssertUnwindSafe(|| {
+                PackedStructFixedWidthMiniBlockEncoder::default().compress(block)
+            }));
+            match r {
+                Ok(Ok((c, enc))) => {
+                    if c.chunks.len() > 1 {
+                        ctx.tag("packed:multi_chunk");
+                    }
+                    check_miniblock(ctx, "packed", &c, &enc, &struct_block_bytes, &expected, nv as u64, &no_chunk);
+                    if c.data.len() != 1 || c.data[0].as_ref() != expected.as_slice() {
+                        ctx.fail("roundtrip:packed", "packed rows are not the row-major zip of the children".into());
+                    }
+                    show_mini(&c)
+                }
+                Ok(Err(_)) => "err".into(),
+                Err(_) => "panic".into(),
+            }
+        }
+        ["dict", items] => {
+            let Some(vals) = parse_items(items) else { return bad };
+            if vals.is_empty() {
+                return bad;
+            }
+            ctx.tag("dict");
+            let block = var_block(&vals, 4, true);
+            let r = std::panic::catch_unwind(std::panic::AssertUnwindSafe(|| dictionary_encode(block)));
+            match r {
+                Ok((indices, dictionary)) => {
+                    let idx: Vec<u64> = match &indices {
+                        DataBlock::FixedWidth(f) if f.bits_per_value == 32 => read_words(&f.data, 4),
+                        _ => {
+                            ctx.fail("roundtrip:dict", "indices are not a 32-bit fixed width block".into());
+                            return "err".into();
+                        }
+                    };
+                    let dvals = match &dictionary {
+                        DataBlock::VariableWidth(v) => match var_values(v) {
+                            Ok(d) => d,
+                            Err(e) => {
+                                ctx.fail("roundtrip:dict", e);
+                                return "err".into();
+                            }
+                        },
+                        _ => {
+                            ctx.fail("roundtrip:dict", "dictionary is not variable width".into());
+                            return "err".into();
+                        }
+                    };
+                    // oracle: lookup gives the input; dictionary has no duplicates
+                    let back: Option<Vec<Vec<u8>>> = idx.iter().map(|i| dvals.get(*i as usize).cloned()).collect();
+                    if back.as_deref() != Some(vals.as_slice()) {
+                        ctx.fail("roundtrip:dict", "dictionary[indices] differs from the input".into());
+                    }
+                    let uniq: std::collections::HashSet<&Vec<u8>> = dvals.iter().collect();
+                    if uniq.len() != dvals.len() {
+                        ctx.fail("dict_duplicates", "dictionary contains a value twice".into());
+                    }
+                    format!("idx={} dict={}", show_nat_list(idx), show_buf(&canon_vals(&dvals)))
+                }
+                Err(_) => "panic".into(),
+            }
+        }
+        ["ibp", ts, vs] => {
+            let (Some(ts), Some(vs)) = (ts.parse::<usize>().ok(), parse_vals(vs)) else { return bad };
+            if ![1, 2, 4, 8].contains(&ts) || !vs.iter().all(|v| fits(*v, ts)) || vs.is_empty() {
+                return bad;
+            }
+            ctx.tag(&format!("ibp{}", ts * 8));
+            let bytes = words_to_bytes(&vs, ts);
+            let block = fixed_block(bytes.clone(), (ts * 8) as u64, vs.len() as u64, true);
+            match MiniBlockCompressor::compress(&InlineBitpacking::new((ts * 8) as u64), block) {
+                Ok((c, enc)) => {
+                    if c.chunks.len() > 1 {
+                        ctx.tag("ibp:multi_chunk");
+                    }
+                    let full = |ci: usize| ts == 8 && vs.chunks(1024).nth(ci).map(|c| c.iter().any(|v| v >> 63 == 1)).unwrap_or(false);
+                    check_miniblock(ctx, "inline_bitpack", &c, &enc, &block_bytes, &bytes, vs.len() as u64, &full);
+                    // header word (bit width) of every chunk
+                    let mut off = 0usize;
+                    let mut hdr = vec![];
+                    for ch in &c.chunks {
+                        hdr.push(read_words(&c.data[0][off..off + ts], ts)[0]);
+                        off += ch.buffer_sizes[0] as usize;
+                    }
+                    let s = show_mini(&c);
+                    format!("{} hdr={}", s.split(" bufs=").next().unwrap(), show_nat_list(hdr))
+                }
+                Err(_) => "err".into(),
+            }
+        }
+        ["obp", ts, cw, vs] => {
+            let (Some(ts), Some(cw), Some(vs)) = (ts.parse::<usize>().ok(), cw.parse::<u64>().ok(), parse_vals(vs)) else {
+                return bad;
+            };
+            if ![1, 2, 4, 8].contains(&ts) || !vs.iter().all(|v| fits(*v, ts)) || vs.is_empty() || cw == 0 || cw >= (ts * 8) as u64 {
+                return bad;
+            }
+            if !vs.iter().all(|v| *v >> cw == 0) {
+                return bad;
+            }
+            ctx.tag(&format!("obp{}", ts * 8));
+            let bytes = words_to_bytes(&vs, ts);
+            let block = fixed_block(bytes.clone(), (ts * 8) as u64, vs.len() as u64, false);
+            let codec = OutOfLineBitpacking::new(cw, (ts * 8) as u64);
+            match BlockCompressor::compress(&codec, block) {
+                Ok(buf) => {
+                    let out = buf.to_vec();
+                    let r = std::panic::catch_unwind(std::panic::AssertUnwindSafe(|| {
+                        codec.decompress(LanceBuffer::from(out.clone()), vs.len() as u64)
+                    }));
+                    match r {
+                        Ok(Ok(b)) => match block_bytes(&b) {
+                            Ok(bs) if bs == bytes => {}
+                            Ok(_) => ctx.fail("roundtrip:ool_bitpack", "decoded words differ".into()),
+                            Err(e) => ctx.fail("roundtrip:ool_bitpack", e),
+                        },
+                        Ok(Err(e)) => ctx.fail("roundtrip:ool_bitpack", format!("decompress error {e}")),
+                        Err(_) => ctx.fail("roundtrip:ool_bitpack", "decompress panicked".into()),
+                    }
+                    let words = out.len() / ts;
+                    let wpc = 1024 * cw as usize / (ts * 8);
+                    let full = vs.len() / 1024;
+                    let tail = vs.len() % 1024;
+                    let kind = if tail == 0 {
+                        "none"
+                    } else if words == full * wpc + tail {
+                        ctx.tag("obp:raw_tail");
+                        "raw"
+                    } else {
+                        ctx.tag("obp:packed_tail");
+                        "packed"
+                    };
+                    format!("words={words} tail={kind}")
+                }
+                Err(_) => "err".into(),
+            }
+        }
+        // oracle-only lines --------------------------------------------------------------------
+        ["gen", inner, ts, vs] => {
+            let (Some(ts), Some(vs)) = (ts.parse::<usize>().ok(), parse_vals(vs)) else { return bad };
+            if ![1, 2, 4, 8].contains(&ts) || !vs.iter().all(|v| fits(*v, ts)) || vs.is_empty() {
+                return bad;
+            }
+            let inner_c: Box<dyn MiniBlockCompressor> = match *inner {
+                "rle" => Box::new(RleMiniBlockEncoder::new()),
+                "flat" => Box::new(ValueEncoder::default()),
+                "bss" if ts == 4 || ts == 8 => Box::new(ByteStreamSplitEncoder::new(ts * 8)),
+                _ => return bad,
+            };
+            let bytes = words_to_bytes(&vs, ts);
+            let block = fixed_block(bytes.clone(), (ts * 8) as u64, vs.len() as u64, false);
+            match GeneralMiniBlockCompressor::new(inner_c, CompressionConfig::default()).compress(block) {
+                Ok((c, enc)) => {
+                    let name = encoding_name(&enc);
+                    ctx.tag(&format!("gen:{name}"));
+                    check_miniblock(ctx, &format!("gen:{name}"), &c, &enc, &block_bytes, &bytes, vs.len() as u64, &no_chunk);
+                    "rt".into()
+                }
+                Err(_) => "err".into(),
+            }
+        }
+        ["fsst", bw, items] => {
+            let (Some(bw), Some(vals)) = (bw.parse::<usize>().ok(), parse_items(items)) else { return bad };
+            if ![4, 8].contains(&bw) || vals.is_empty() {
+                return bad;
+            }
+            let block = var_block(&vals, bw, false);
+            let expected = canon_vals(&vals);
+            let r = std::panic::catch_unwind(std::panic::AssertUnwindSafe(|| FsstMiniBlockEncoder::default().compress(block)));
+            match r {
+                Ok(Ok((c, enc))) => {
+                    ctx.tag("fsst");
+                    check_miniblock(ctx, "fsst", &c, &enc, &var_block_bytes, &expected, vals.len() as u64, &no_chunk);
+                    "rt".into()
+                }
+                Ok(Err(_)) => "err".into(),
+                Err(_) => {
+                    ctx.fail("panic:fsst", "FsstMiniBlockEncoder::compress panicked".into());
+                    "rt".into()
+                }
+            }
+        }
+        ["vstrat", bw, meta, items] => {
+            let (Some(bw), Some(vals)) = (bw.parse::<usize>().ok(), parse_items(items)) else { return bad };
+            if ![4, 8].contains(&bw) || vals.is_empty() {
+                return bad;
+            }
+            let mut md: Vec<(&str, &str)> = vec![];
+            for kv in meta.split(';') {
+                match kv {
+                    "-" => {}
+                    "none" | "lz4" | "zstd" | "fsst" => md.push(("lance-encoding:compression", kv)),
+                    _ => return bad,
+                }
+            }
+            let dt = if bw == 4 { arrow_schema::DataType::Binary } else { arrow_schema::DataType::LargeBinary };
+            let field = field_with_meta("c", dt, &md);
+            let block = var_block(&vals, bw, true);
+            let expected = canon_vals(&vals);
+            let strat = DefaultCompressionStrategy::new();
+            let comp = match strat.create_miniblock_compressor(&field, &block) {
+                Ok(c) => c,
+                Err(_) => return "err".into(),
+            };
+            let r = std::panic::catch_unwind(std::panic::AssertUnwindSafe(|| comp.compress(block)));
+            match r {
+                Ok(Ok((c, enc))) => {
+                    let name = encoding_name(&enc);
+                    ctx.tag(&format!("vstrat:{name}"));
+                    check_miniblock(ctx, &format!("vstrat:{name}"), &c, &enc, &var_block_bytes, &expected, vals.len() as u64, &no_chunk);
+                    "rt".into()
+                }
+                Ok(Err(_)) => "err".into(),
+                Err(_) => {
+                    ctx.fail("panic:vstrat", "compress panicked".into());
+                    "rt".into()
+                }
+            }
+        }
+        ["const", n, bs] => {
+            let (Some(n), Some(bs)) = (n.parse::<u64>().ok(), parse_vals(bs)) else { return bad };
+            if !bs.iter().all(|b| *b < 256) {
+                return bad;
+            }
+            ctx.tag("constant");
+            let scalar: Vec<u8> = bs.iter().map(|b| *b as u8).collect();
+            let d = ConstantDecompressor::new(if scalar.is_empty() { None } else { Some(LanceBuffer::from(scalar.clone())) });
+            match BlockDecompressor::decompress(&d, LanceBuffer::empty(), n) {
+                Ok(DataBlock::Constant(c)) => {
+                    if c.num_values != n || c.data.as_ref() != scalar.as_slice() {
+                        ctx.fail("roundtrip:constant", "constant block differs from the scalar".into());
+                    }
+                    format!("const {} x{}", show_buf(&c.data), c.num_values)
+                }
+                Ok(DataBlock::AllNull(a)) => {
+                    if !scalar.is_empty() || a.num_values != n {
+                        ctx.fail("roundtrip:constant", "all-null block for a scalar".into());
+                    }
+                    format!("allnull x{}", a.num_values)
+                }
+                _ => "err".into(),
+            }
+        }
         // oracle-only: the default strategy picks the codec (RLE / BSS / bit-packing / flat, optional LZ4/ZSTD wrapper)
         ["strat", ts, meta, vs] => {
             let (Some(ts), Some(vs)) = (ts.parse::<usize>().ok(), parse_vals(vs)) else { return bad };
@@ -577,13 +1024,165 @@ fn gen_random_words(rng: &mut Rng, ts: usize, n: usize) -> String {
     (0..n).map(|_| pick_value(rng, ts).to_string()).collect::<Vec<_>>().join(",")
 }
 
+
+/// byte-string items `len:seed*n` with about `target` values
+fn gen_items(rng: &mut Rng, target: usize, max_len: usize) -> String {
+    let mut items = vec![];
+    let mut n = 0;
+    while n < target {
+        let len = match rng.below(8) {
+            0 => 0,
+            1 => max_len,
+            2 => 1,
+            3 => rng.usize(8),
+            _ => rng.usize(max_len + 1),
+        };
+        let rep = match rng.below(6) {
+            0 => *rng.pick(&[2usize, 15, 16, 17, 255, 256, 512, 513, 1024]),
+            1 => 1 + rng.usize(40),
+            _ => 1,
+        }
+        .min(target - n)
+        .max(1);
+        items.push(format!("{len}:{}*{rep}", rng.usize(256)));
+        n += rep;
+    }
+    items.join(",")
+}
+
+fn gen_more(rng: &mut Rng, idx: usize, ts: usize, lines: &mut Vec<String>) {
+    let bw = *rng.pick(&[4usize, 8]);
+    match idx % 10 {
+        0 | 1 => {
+            // binary mini-block: narrow values (what the strategy sends), sometimes long ones
+            let target = match rng.below(6) {
+                0 => 1,
+                1 => 2 + rng.usize(6),
+                2 | 3 => 20 + rng.usize(300),
+                _ => 600 + rng.usize(2500),
+            };
+            let max_len = *rng.pick(&[0usize, 3, 16, 40, 100, 255, 255, 255, 1000, 3000]);
+            let items = gen_items(rng, target, max_len);
+            lines.push(format!("bin {bw} {items}"));
+            if rng.chance(1, 3) {
+                let md = *rng.pick(&["-", "none", "fsst", "lz4", "zstd"]);
+                lines.push(format!("vstrat {bw} {md} {items}"));
+            }
+        }
+        2 => {
+            // the overshoot shape: a stretch of tiny values, then wide ones
+            let tiny = *rng.pick(&[256usize, 512, 511, 513, 1024, 100]);
+            let wide = 200 + rng.usize(56);
+            let k = 1 + rng.usize(1200);
+            lines.push(format!("bin {bw} {}:1*{tiny},{wide}:2*{k},3:3*{}", rng.usize(2), rng.usize(5)));
+        }
+        3 => {
+            let t1 = 1 + rng.usize(30);
+            let items = gen_items(rng, t1, 40);
+            lines.push(format!("var {bw} {items}"));
+            let t2 = 1 + rng.usize(60);
+            let ditems = gen_items(rng, t2, 6);
+            lines.push(format!("dict {ditems}"));
+        }
+        4 => {
+            let nkids = 1 + rng.usize(4);
+            let ws: Vec<String> = (0..nkids).map(|_| rng.pick(&[1usize, 2, 4, 8, 16, 3]).to_string()).collect();
+            let nv = match rng.below(4) {
+                0 => 1,
+                1 => *rng.pick(&[255usize, 256, 257, 1024, 4096, 4097]),
+                _ => 1 + rng.usize(6000),
+            };
+            lines.push(format!("pk {} {nv} {}", ws.join("/"), rng.usize(256)));
+        }
+        5 | 6 => {
+            // inline bit-packing: per-1024-chunk magnitudes
+            let nchunks = 1 + rng.usize(4);
+            let mut items = vec![];
+            for c in 0..nchunks {
+                let width = match rng.below(6) {
+                    0 => 0,
+                    1 => ts * 8,
+                    2 => ts * 8 - 1,
+                    _ => rng.usize(ts * 8 + 1),
+                };
+                let mx = if width == 0 { 0 } else if width >= 64 { u64::MAX } else { (1u64 << width) - 1 };
+                let n = if c + 1 == nchunks { *rng.pick(&[1usize, 2, 100, 1023, 1024, 700]) } else { 1024 };
+                if rng.chance(1, 2) {
+                    items.push(format!("{mx}*1,{}*{}", mx / 2, n - 1));
+                    if n == 1 {
+                        items.pop();
+                        items.push(format!("{mx}"));
+                    }
+                } else {
+                    let a = rng.usize(n);
+                    let mut parts = vec![];
+                    if a > 0 {
+                        parts.push(format!("0*{a}"));
+                    }
+                    parts.push(format!("{mx}"));
+                    if n - a - 1 > 0 {
+                        parts.push(format!("{}*{}", mx & 0x5555_5555_5555_5555, n - a - 1));
+                    }
+                    items.push(parts.join(","));
+                }
+            }
+            lines.push(format!("ibp {ts} {}", items.join(",")));
+        }
+        7 => {
+            let bits = ts * 8;
+            let cw = 1 + rng.usize(bits - 1);
+            let wpc = 1024 * cw / bits;
+            let full = rng.usize(3);
+            let tail = match rng.below(6) {
+                0 => 0,
+                1 => wpc.max(1).min(1023),
+                2 => (wpc + 1).min(1023),
+                3 => wpc.saturating_sub(1).max(1),
+                _ => 1 + rng.usize(1023),
+            };
+            let n = full * 1024 + tail;
+            if n == 0 {
+                lines.push(format!("obp {ts} {cw} 1"));
+            } else {
+                let mx = (1u64 << cw) - 1;
+                let a = rng.usize(n);
+                let mut parts = vec![];
+                if a > 0 {
+                    parts.push(format!("{}*{a}", mx / 3));
+                }
+                parts.push(format!("{mx}"));
+                if n - a - 1 > 0 {
+                    parts.push(format!("{}*{}", rng.next_u64() & mx, n - a - 1));
+                }
+                lines.push(format!("obp {ts} {cw} {}", parts.join(",")));
+            }
+        }
+        8 => {
+            let inner = *rng.pick(&["rle", "flat", "bss"]);
+            let ts2 = if inner == "bss" { *rng.pick(&[4usize, 8]) } else { ts };
+            let n = 1500 + rng.usize(5000);
+            let vs = if rng.chance(1, 2) { gen_runs(rng, ts2, n) } else { gen_random_words(rng, ts2, n) };
+            lines.push(format!("gen {inner} {ts2} {vs}"));
+        }
+        _ => {
+            let target = 50 + rng.usize(3000);
+            let ml = *rng.pick(&[8usize, 30, 100, 255]);
+            let items = gen_items(rng, target, ml);
+            lines.push(format!("fsst {bw} {items}"));
+            let n = rng.usize(5000);
+            let bytes: Vec<u64> = (0..rng.usize(17)).map(|_| rng.below(256)).collect();
+            lines.push(format!("const {n} {}", show_nat_list(bytes)));
+        }
+    }
+}
+
 impl Prop for C26 {
     fn id(&self) -> &'static str {
         "C26"
     }
     fn budget(&self, tier: Tier) -> usize {
         match tier {
-            Tier::Quick => 1500,
+            Tier::Quick => 2400,
             Tier::Thorough => 30000,
             Tier::Search => 12000,
         }
@@ -599,7 +1198,11 @@ impl Prop for C26 {
             _ => 4000 + rng.usize(6000),
         };
         let mut lines = vec![];
-        match idx % 8 {
+        if idx % 2 == 1 {
+            gen_more(rng, idx / 2, ts, &mut lines);
+            return lines;
+        }
+        match (idx / 2) % 8 {
             0 | 1 | 2 => {
                 let vs = if size == 0 { "-".to_string() } else { gen_runs(rng, ts, size) };
                 lines.push(format!("rle {ts} {vs}"));
@@ -696,7 +1299,14 @@ impl Prop for C26 {
         let mut res = CaseResult::default();
         for (i, l) in lines.iter().enumerate() {
             let mut ctx = Ctx { res: &mut res, line: i };
-            let out = exec_line(&mut ctx, l);
+            let out = match std::panic::catch_unwind(std::panic::AssertUnwindSafe(|| exec_line(&mut ctx, l))) {
+                Ok(o) => o,
+                Err(_) => {
+                    let op = l.split(' ').next().unwrap_or("?").to_string();
+                    res.failures.push(OracleFailure { what: format!("{op}: the implementation panicked"), key: Some(format!("panic:{op}")), line: i });
+                    "panic".into()
+                }
+            };
             if out == "bad-op" {
                 res.tags.push("bad-op".into());
             }
